@@ -59,6 +59,11 @@ RAW_SINGLES = [
     ('a[\\]|]b', L('a') + (S(']', '|'),) + L('b'), False),
     ('[\\]|a]b', (S(']', '|', 'a'),) + L('b'), False),
     ('@(a[\\])|]|b)', (('grp', '@', (L('a') + (S(']', ')', '|'),), L('b'))),), True),
+    # an escaped `)` does not close the group: the `|` behind it is still an alternative of the group
+    ('@(a\\)|b)', (('grp', '@', (L('a)'), L('b'))),), True),
+    ('+(a\\)|b)c', (('grp', '+', (L('a)'), L('b'))),) + L('c'), True),
+    ('?(\\(a\\)|b)', (('grp', '?', (L('(a)'), L('b'))),), True),
+    ('*(a\\||b)', (('grp', '*', (L('a|'), L('b'))),), True),
 ]
 
 
